@@ -245,6 +245,41 @@ def eval_helpers(repo) -> Dict[str, Tuple[str, str]]:
     res.append(_compare("candles_sum(4 readings, length=2) [default index]", _run(it, fn, [cl, "X", 2]), _expect(spec_sum, cl, "X", 2)))
     out["candles_sum"] = _fold(res)
 
+    # ---- index helpers
+    IXMOD = "hexital.utils.indexing"
+
+    def ix_fn(name):
+        f = repo.func(IXMOD, name)
+        it_ = cs.Interp(repo, f.module.name, None)
+        return it_, it_.module_func(name)
+
+    def s_valid(i, n):
+        return _valid(i, n)
+
+    def s_abs(i, n):
+        if i is None:
+            return n - 1
+        if not _valid(i, n):
+            return None
+        return n + i if i < 0 else i
+
+    def s_validate(i, n, default=-1):
+        if i is None:
+            i = default
+        return i if _valid(i, n) else None
+
+    for hname, spec, extra in (("valid_index", s_valid, [()]), ("absindex", s_abs, [()]), ("validate_index", s_validate, [(), (0,), (-2,)])):
+        res = []
+        for n in (0, 1, 3):
+            for i in (None, 0, 1, 2, 3, -1, -2, -3, -4):
+                for ex in extra:
+                    it_, fn_ = ix_fn(hname)
+                    if fn_ is None:
+                        res.append(("undecided", f"{hname} not found"))
+                        continue
+                    res.append(_compare(f"{hname}({i}, {n}{''.join(', ' + str(x) for x in ex)})", _run(it_, fn_, [i, n, *ex]), _expect(spec, i, n, *ex)))
+        out[hname] = _fold(res)
+
     # ---- Indicator wrappers: defaults (own name, active index; index 0 is a position, not "no index")
     IMOD, ICLS = "hexital.core.indicator", "Indicator"
 
